@@ -204,8 +204,12 @@ func (r *Run) Finish() int {
 		ev["assumptions"] = []string{}
 	}
 	b, _ := json.MarshalIndent(ev, "", " ")
-	os.MkdirAll(filepath.Join(VerifRoot(), "evidence"), 0o755)
-	if err := os.WriteFile(filepath.Join(VerifRoot(), "evidence", r.Prop+".json"), append(b, '\n'), 0o644); err != nil {
+	evDir := filepath.Join(VerifRoot(), "evidence")
+	if d := os.Getenv("VERIF_EVIDENCE_DIR"); d != "" {
+		evDir = d // runs against a deliberately changed tree (tools/try_mutant.sh) keep their evidence apart
+	}
+	os.MkdirAll(evDir, 0o755)
+	if err := os.WriteFile(filepath.Join(evDir, r.Prop+".json"), append(b, '\n'), 0o644); err != nil {
 		fmt.Fprintf(os.Stderr, "cannot write evidence: %v\n", err)
 		return 2
 	}
